@@ -246,6 +246,22 @@ def run(work, tier, replay=None):
                 known.append(kf)
             continue
         violations.append((sig, "data race: %s  vs  %s" % (rp[0], rp[-1]), save_replay("C09", "race-" + re.sub(r"\W+", "_", rp[0])[-60:], [dict(race=list(rp))])))
+    # (E) lock-grain specification: RelayConc.tla explored exhaustively with TLC's deadlock check and the
+    # NoLockLeft invariant (Go RWMutex semantics incl. writer preference); behaviours of the specification forced on the
+    # real handlers and random schedules of the real handlers validated against it (a run that ends in a deadlock
+    # of the real handlers is a violation; a specification-only deadlock is a lead)
+    import relayconc_check
+    rc_ = relayconc_check.stage(work, tier, work.seed, variants=(False, True), witnesses=False)
+    for f in rc_["fails"]:
+        if "C09" not in relayconc_check.OWNER.get(f["inv"], []):
+            continue
+        sig = dict(inv=f["inv"], cid=str(f["cid"]), what="deadlock" if f["inv"] == "deadlock" else "lock-grain invariant")
+        violations.append((sig, "RelayConc run %s: %s %s" % (f["cid"], f["inv"], f.get("note") or ""),
+                           save_replay("C09", "relayconc-%s" % f["cid"], [dict(stage="RelayConc (harness l1m)", invariant=f["inv"], scenario=f.get("scenario"), note=f.get("note"))])))
+    for m_ in rc_["model"]:
+        if m_.get("deadlock"):
+            leads.append(dict(kind="RelayConc deadlock (specification)", detail=m_))
+    work.log("(E) RelayConc: %s" % "; ".join("vikja=%s %s states" % (m_["vikja"], m_["distinct"]) for m_ in rc_["model"]))
     # leads without a reproduction on real code are inconclusive, never a violation
     unconfirmed = []
     for ld in leads:
@@ -257,7 +273,11 @@ def run(work, tier, replay=None):
                     acquired_while_holding=[list(e) for e in edges], lock_classes=classes, unresolved_lock_sites=unresolved,
                     discipline_deviations=[[k, list(cm)] for k, cm in missing], race_reports=[list(r) for r in races][:20],
                     samples=[dict(segment=[list(x) for x in (nested[0] if nested else list(segs)[0])], from_requests=sorted(segs[nested[0] if nested else list(segs)[0]]))],
-                    per_block=conc["summaries"][:40])
+                    per_block=conc["summaries"][:40],
+                    lock_grain=dict(exhaustive=rc_["model"], real_runs=rc_["stats"], runs_the_specification_does_not_explain=rc_["lost"][:20]))
+    coverage["states"] += sum((m_.get("distinct") or 0) for m_ in rc_["model"])
+    coverage["transitions"] += sum((m_.get("generated") or 0) for m_ in rc_["model"])
+    coverage["traces_validated_against_impl"] += sum(v.get("runs", 0) for v in rc_["stats"].values())
     write_evidence(work, "model_checking", coverage,
                    ["mutexes are identified by class (type.field): instances of one class are merged, conservative for deadlock",
                     "the lock programs are those observed on generated and seeded histories; a handler path never executed contributes no program (vacuity is gated by the request-kind coverage of the histories)",
